@@ -101,6 +101,9 @@ type NftScenario struct {
 	AdvChains   []string
 	MaxAdv      int
 	Burns       bool
+	// MintInto: users also try MsgMintNFT of tok1 / tok7 into every class that exists on their chain (voucher classes
+	// included); counts against MaxAdv when it succeeds
+	MintInto bool
 }
 
 func isUser(c *world.Chain, addr string) (world.Account, bool) {
@@ -175,6 +178,31 @@ func (s NftScenario) Actions(m *PktModel, w *world.World, g Ghost) []UserAction 
 	for k, v := range g.Sends {
 		if strings.HasPrefix(k, "mintadv:") {
 			nAdv += v
+		}
+	}
+	if s.MintInto && nAdv < s.MaxAdv {
+		for _, c := range w.Chains {
+			c := c
+			ctx := c.ReadCtx(c.LastTime())
+			cols, _ := c.App.NftKeeper.GetCollections(ctx)
+			for _, col := range cols {
+				class := col.Denom.Id
+				if !strings.HasPrefix(class, "tibc-") {
+					continue // users may of course mint into native classes they own; that is covered by mintadv
+				}
+				for _, id := range []string{"tok1", "tok7"} {
+					if _, exists := NftHoldings(c)[class+"|"+id]; exists {
+						continue
+					}
+					id := id
+					label := fmt.Sprintf("mintadv:into:%s:%s/%s", c.Name, class, id)
+					out = append(out, UserAction{Label: label, On: c.Name, Run: func(w *world.World) (*world.Chain, world.TxRes) {
+						cc := w.C(c.Name)
+						u := User(cc, 1)
+						return cc, w.Tx(cc, u, nftMint(id, class, u))
+					}})
+				}
+			}
 		}
 	}
 	if nAdv < s.MaxAdv {
@@ -254,6 +282,9 @@ func NftStep(m *PktModel, w *world.World, ev *StepEvent) []explore.Finding {
 	case ev.Kind == "user" && strings.HasPrefix(ev.Label, "mintadv:"), ev.Kind == "user" && strings.HasPrefix(ev.Label, "mint:"):
 		for _, c := range created {
 			g.Extra[nftKey(chain, c.ci)] = "native:" + chain + ":" + c.ci
+			if strings.HasPrefix(c.ci, "tibc-") {
+				add("C04", "voucher-created-without-delivered-packet", fmt.Sprintf("%s: a user transaction minted %s in a voucher class", ev.Label, c.ci))
+			}
 		}
 	case ev.Kind == "user" && strings.HasPrefix(ev.Label, "burn:"):
 		for _, c := range removed {
